@@ -6,7 +6,8 @@ RULE = ("TLC enumerates every key list of length 1..MaxKeys over KeyCols (distin
         "explicit asc, desc) x select style (keys not selected / selected / positional) x WHERE on/off over world W5 "
         "(22 entries, ties, sizes 2/9/10/100, link counts 1/2/12); two runs per scenario (without / with ORDER BY); "
         "Judge_C05 checks permutation and pairwise key order with typed comparison from the world. "
-        "Non-trivial = at least 3 rows and the unordered output is not already sorted.")
+        "Non-trivial = at least 3 rows and the unordered output is not already sorted. "
+        "The key lists of length <= 2 are also run over pseudo-random trees (WorldRnd; quick: 3000 sampled over 2 trees, thorough: 8 trees).")
 ASSUMPTIONS = ["lstat size/nlink/mtime as ground truth", "string order = code-point order (ASCII names)"]
 
 
